@@ -1,6 +1,9 @@
 package main
 
 import (
+	"runtime"
+
+	"github.com/veraison/psatoken/encoding"
 	"strconv"
 	"strings"
 	"sync"
@@ -201,6 +204,25 @@ func runThread(sh *concShared, ctok []string, prog []string) []string {
 				}
 				return "ok:" + itoa(int64(v))
 			})
+		case op == "x":
+			r = guard(func() string {
+				v1, v2 := int64(len(prog)), int64(k)
+				st := struct {
+					A *int64 `cbor:"1,keyasint" json:"a"`
+					B *int64 `cbor:"2,keyasint,omitempty" json:"b,omitempty"`
+				}{&v1, &v2}
+				j, err := encoding.SerializeStructToJSON(&st)
+				if err != nil {
+					return "err"
+				}
+				cb, err := encoding.SerializeStructToCBOR(embEm, &st)
+				if err != nil {
+					return "err"
+				}
+				// keep the results alive across a scheduling point before looking at them
+				runtime.Gosched()
+				return "ok:" + string(j) + ":" + hexTok(cb)
+			})
 		case op == "J":
 			r = guard(func() string {
 				if sh.jsonEnc == nil {
@@ -290,12 +312,12 @@ func execConc(in string) string {
 
 func genC17(tier string, seed uint64, emit func(string)) {
 	r := &rng{s: seed}
-	n := 45
+	n := 32
 	if tier == "thorough" {
-		n = 3000
+		n = 350
 	}
 	sops := []string{"sv", "sg", "sc", "sj", "svc", "svj", "seV", "seV", "sej", "seg", "sdV", "sdV", "sdg", "sdv", "sdc", "sdj", "sdm"}
-	pops := []string{"pv", "pg", "pc", "pj", "peV", "pej", "pdV", "pdg", "pdc", "pdj", "n", "J", "C"}
+	pops := []string{"pv", "pg", "pc", "pj", "peV", "pej", "pdV", "pdg", "pdc", "pdj", "n", "J", "C", "x", "x"}
 	for kind := 1; kind <= 2; kind++ {
 		alt := claimAlternatives(kind, r)
 		for i := 0; i < n; i++ {
